@@ -604,7 +604,56 @@ fn spawn_worker(prop: &str, ctx: &Ctx, trace: bool, n: usize) -> Worker {
     }
 }
 
+/// user + system CPU time consumed so far by a process (all its threads), in seconds
+fn cpu_seconds(pid: u32) -> Option<f64> {
+    let s = std::fs::read_to_string(format!("/proc/{}/stat", pid)).ok()?;
+    // the command name may contain spaces and parentheses: fields are counted after the last ')'
+    let rest = &s[s.rfind(')')? + 1..];
+    let f: Vec<&str> = rest.split_whitespace().collect();
+    // rest starts at field 3 (state); utime and stime are fields 14 and 15
+    let ut: f64 = f.get(11)?.parse().ok()?;
+    let stime: f64 = f.get(12)?.parse().ok()?;
+    Some((ut + stime) / 100.0)
+}
+
+enum Wait {
+    Line(String),
+    /// no answer within the limit AND the worker burned at least that much CPU time meanwhile: it is spinning
+    Spin,
+    /// no answer for 20 times the limit, without consuming CPU: the machine is overloaded or the worker is blocked
+    Stalled,
+    Closed,
+}
+
 impl Worker {
+    /// Waits for the next line of the worker. A deadline is only a verdict ("hang") when the worker also consumed that
+    /// much CPU time: on a loaded machine wall-clock time alone says nothing about the program under test.
+    fn wait_line(&self, limit: Duration) -> Wait {
+        let pid = self.child.id();
+        let t0 = Instant::now();
+        let c0 = cpu_seconds(pid);
+        loop {
+            match self.rx.recv_timeout(Duration::from_millis(200)) {
+                Ok(l) => return Wait::Line(l),
+                Err(RecvTimeoutError::Disconnected) => return Wait::Closed,
+                Err(RecvTimeoutError::Timeout) => {
+                    let wall = t0.elapsed();
+                    if wall >= limit {
+                        let cpu = match (c0, cpu_seconds(pid)) {
+                            (Some(a), Some(b)) => b - a,
+                            _ => wall.as_secs_f64(),
+                        };
+                        if cpu >= 0.8 * limit.as_secs_f64() {
+                            return Wait::Spin;
+                        }
+                        if wall >= limit * 20 {
+                            return Wait::Stalled;
+                        }
+                    }
+                }
+            }
+        }
+    }
     fn send(&mut self, s: &str) -> bool {
         match self.child.stdin.as_mut() {
             Some(i) => writeln!(i, "{}", s).is_ok() && i.flush().is_ok(),
@@ -706,9 +755,10 @@ fn examine_chunk(
         let mut last: Option<u64> = None;
         let mut done = false;
         let mut hang = false;
+        let mut stalled = false;
         loop {
-            match w.rx.recv_timeout(case_timeout) {
-                Ok(l) => {
+            match w.wait_line(case_timeout) {
+                Wait::Line(l) => {
                     if let Some(i) = l.strip_prefix("S ") {
                         last = i.trim().parse().ok();
                     } else if l.starts_with("ok ") {
@@ -716,11 +766,15 @@ fn examine_chunk(
                         break;
                     }
                 }
-                Err(RecvTimeoutError::Timeout) => {
+                Wait::Spin => {
                     hang = true;
                     break;
                 }
-                Err(RecvTimeoutError::Disconnected) => break,
+                Wait::Stalled => {
+                    stalled = true;
+                    break;
+                }
+                Wait::Closed => break,
             }
         }
         if done {
@@ -730,6 +784,13 @@ fn examine_chunk(
             return;
         }
         let (how, tail) = w.reap(true);
+        if stalled {
+            merged.lock().unwrap().inconclusive(format!(
+                "worker for chunk {}..{} of {} gave no answer for {} s without using the CPU (case {:?}): overloaded machine or blocked worker",
+                from, b, prop, case_timeout.as_secs() * 20, last
+            ));
+            return;
+        }
         let idx = match last {
             Some(i) => i,
             None => {
@@ -746,18 +807,23 @@ fn examine_chunk(
         let mut ok2 = false;
         let mut hang2 = false;
         loop {
-            match w2.rx.recv_timeout(case_timeout) {
-                Ok(l) => {
+            match w2.wait_line(case_timeout) {
+                Wait::Line(l) => {
                     if l.starts_with("ok ") {
                         ok2 = true;
                         break;
                     }
                 }
-                Err(RecvTimeoutError::Timeout) => {
+                Wait::Spin => {
                     hang2 = true;
                     break;
                 }
-                Err(RecvTimeoutError::Disconnected) => break,
+                Wait::Stalled => {
+                    let _ = w2.reap(true);
+                    merged.lock().unwrap().inconclusive(format!("case {} of {}: no answer and no CPU use when run alone: overloaded machine or blocked worker", idx, prop));
+                    return;
+                }
+                Wait::Closed => break,
             }
         }
         let input = check.describe_case(ctx, idx);
@@ -828,13 +894,13 @@ pub fn run_sharded(check_factory: &(dyn Fn() -> Box<dyn Check> + Sync), ctx: &Ct
                     let mut healthy = w.send(&format!("chunk {} {}", a, b));
                     if healthy {
                         healthy = loop {
-                            match w.rx.recv_timeout(chunk_timeout) {
-                                Ok(l) => {
+                            match w.wait_line(chunk_timeout) {
+                                Wait::Line(l) => {
                                     if l.starts_with("ok ") {
                                         break true;
                                     }
                                 }
-                                Err(_) => break false,
+                                _ => break false,
                             }
                         };
                     }
